@@ -1145,6 +1145,19 @@ def install(eng):
 
     import itertools
 
+    @reg(itertools.islice, "itertools.islice")
+    def m_islice(eng, st, args, kw):
+        # islice(iterable, stop): the first min(stop, len) items
+        if len(args) != 2:
+            raise Unsupported("itertools.islice with start/step")
+        it = to_iter(eng, st, args[0])
+        stop = eng.lift(args[1], st)
+        if isinstance(it, list) or it.seq is None:
+            raise Unsupported("itertools.islice over an iterable whose items are not known as a sequence")
+        n = V.Val.i(stop)
+        take = z3.If(n < 0, 0, z3.If(n < z3.Length(it.seq), n, z3.Length(it.seq)))
+        yield st, SymIter(z3.SubSeq(it.seq, 0, take))
+
     @reg(itertools.zip_longest, "itertools.zip_longest")
     def m_zip_longest(eng, st, args, kw):
         fill = kw.get("fillvalue")
